@@ -474,6 +474,10 @@ def root_specs(D, tier):
                 if kind == "nncontrol" and R == 2:
                     continue
                 specs.append(dict(label="cond.%s/Dx%d.Dy%d/R%d" % (kind, Dx, Dy, R), t="cond", kind=kind, Dx=Dx, Dy=Dy, R=R))
+    # the same conditionals built through the other constructor argument combinations
+    for kind in ("full", "diag", "identity", "identity_diag"):
+        for ctor in ("Lambda", "all"):
+            specs.append(dict(label="cond.%s/Dx%d.Dy%d/R2/ctor.%s" % (kind, D, D, ctor), t="cond", kind=kind, Dx=D, Dy=D, R=2, ctor=ctor))
     for fk in ("ConjugateFactor", "OneRankFactor", "LinearFactor", "ConstantFactor"):
         specs.append(dict(label="factor.%s/R2" % fk, t="factor", kind=fk, R=2))
     for name in ("LRBF", "LSEM"):
@@ -531,7 +535,7 @@ def build_root(sys_, spec):
             o, kw, (M, b, Sy) = objs.mk_cond(kind, M, b, Sy)
             o = o.set_control_variable(kw["u"])
             return o, m_cond("ConditionalGaussianPDF", M, b, Sy)
-        o, kw, (M, b, Sy) = objs.mk_cond(kind, M, b, Sy)
+        o, kw, (M, b, Sy) = objs.mk_cond(kind, M, b, Sy, ctor=spec.get("ctor", "Sigma"))
         return o, m_cond(type(o).__name__, M, b, Sy)
     if t == "factor":
         f, (L, n, bb) = objs.mk_factor(spec["kind"], D, spec["R"], vi, seed, tag=("rootf",))
